@@ -21,12 +21,12 @@ PROP = {
     ],
     "units": [
         {"name": "c17", "pkg": "./internal/pkg/stats", "run": "^TestVerif_C17_", "kind": "rapid", "facets": _FACETS,
-         "checks": (6000, 12000), "shards": (4, 16), "timeout": (600, 1800), "gomaxprocs": (16, 4)},
+         "checks": (6000, 12000), "shards": (4, 16), "timeout": (600, 1800)},
         # thorough only: the same facets under the race detector. halt_on_error makes the process exit at the first
         # report, so the harness's in-flight journal names the case during which the race happened and the report is in
         # the output tail of the replay file.
         {"name": "c17race", "pkg": "./internal/pkg/stats", "run": "^TestVerif_C17_", "kind": "rapid", "facets": _FACETS,
-         "race": (False, True), "checks": (0, 800), "shards": (0, 12), "timeout": (600, 1800), "gomaxprocs": (16, 4),
+         "race": (False, True), "checks": (0, 800), "shards": (0, 12), "timeout": (600, 1800),
          "env": {"GORACE": "halt_on_error=1"}},
         # strict reproduction of the proposed finding; runs only once known_findings.json lists it as open
         {"name": "c17kf-mean", "pkg": "./internal/pkg/stats", "run": "^TestVerifKF_C17_MeanReadTorn$", "kind": "kf",
